@@ -109,6 +109,9 @@ def cases_sampler_frame(tier):
     for method in STATS + QMC:
         for shared in (False, True):
             yield "%s/%s" % (method, "shared" if shared else "own"), {"method": method, "R": 2, "P": 2, "N": 2, "mask": None, "shared": shared, "options": {}}
+    # large requests (thousands of samples per call): the same frame, bounded run-time checking only
+    for method in STATS + QMC:
+        yield "%s/own/large-12x10x80" % method, {"method": method, "R": 12, "P": 10, "N": 80, "mask": None, "shared": False, "options": {}, "__concrete_only__": True}
     # engine options must not decide whether the generator is handed over (e.g. an unscrambled Latin hypercube still draws permutations)
     for method in QMC:
         yield "%s/scramble=False" % method, {"method": method, "R": 2, "P": 2, "N": 2, "mask": None, "shared": False, "options": {"scramble": False}}
@@ -137,8 +140,8 @@ def scn_sampler_frame(T, case):
         cls = real.SciPySampler
     try:
         cfg = types.SimpleNamespace(samplers=(types.SimpleNamespace(method="scipy/" + case["method"], options=dict(case["options"]), shared=case["shared"]),),
-                                    variables=types.SimpleNamespace(initial_values=np.zeros(2)), realizations=types.SimpleNamespace(weights=np.ones(2) / 2),
-                                    gradient=types.SimpleNamespace(number_of_perturbations=2))
+                                    variables=types.SimpleNamespace(initial_values=np.zeros(case["N"])), realizations=types.SimpleNamespace(weights=np.ones(case["R"]) / case["R"]),
+                                    gradient=types.SimpleNamespace(number_of_perturbations=case["P"]))
         smp = cls(cfg, 0, None, rng)
         state0 = rng.bit_generator.state
         smp.generate_samples()
@@ -248,6 +251,12 @@ def scn_order(T, case):
 ALLOWED_RANDOM_ATTRS = {"default_rng", "Generator"}
 
 
+MUTATING_METHODS = {"append", "add", "update", "setdefault", "pop", "popitem", "clear", "extend", "insert", "remove", "discard", "appendleft", "popleft", "sort", "reverse", "__setitem__", "__delitem__"}
+# the one memoized function of the package: the entry-point scan of the plug-in manager (plug-in objects are stateless, see the
+# plug-in clause below, and each manager owns its registry - scenario plugin_manager_per_context)
+ALLOWED_MEMOIZED = {("src/ropt/plugins/_manager.py", "_from_entry_points")}
+
+
 def cases_scan(tier):
     yield "src/ropt", {}
 
@@ -266,8 +275,34 @@ def scn_scan(T, case):
             isinstance(n, ast.ImportFrom) and n.module == "random" for n in ast.walk(tree))
         if imports_random:
             findings["global_random_state"].append("%s: imports the `random` module" % rel)
-        module_containers = {t.id for n in tree.body if isinstance(n, (ast.Assign, ast.AnnAssign)) for t in (n.targets if isinstance(n, ast.Assign) else [n.target])
-                             if isinstance(t, ast.Name) and isinstance(getattr(n, "value", None), (ast.Dict, ast.List, ast.Set)) and not t.id.isupper() and not t.id.startswith("_" ) is False}
+        # module-level names bound to a mutable container (literal, comprehension or constructor call)
+        def _mutable(v):
+            return isinstance(v, (ast.Dict, ast.List, ast.Set, ast.DictComp, ast.ListComp, ast.SetComp)) or (
+                isinstance(v, ast.Call) and (getattr(v.func, "id", None) or getattr(v.func, "attr", None)) in ("dict", "list", "set", "defaultdict", "OrderedDict", "deque", "Counter", "WeakValueDictionary"))
+
+        module_containers = {t.id for n in tree.body if isinstance(n, (ast.Assign, ast.AnnAssign)) and _mutable(getattr(n, "value", None))
+                             for t in (n.targets if isinstance(n, ast.Assign) else [n.target]) if isinstance(t, ast.Name)}
+        for fn_node in ast.walk(tree):
+            if not isinstance(fn_node, (ast.FunctionDef, ast.AsyncFunctionDef, ast.Lambda)):
+                continue
+            if isinstance(fn_node, (ast.FunctionDef, ast.AsyncFunctionDef)):
+                for dec in fn_node.decorator_list:
+                    dn = dec.func if isinstance(dec, ast.Call) else dec
+                    dname = dn.id if isinstance(dn, ast.Name) else getattr(dn, "attr", "")
+                    if dname in ("cache", "lru_cache", "cached_property") and (rel, fn_node.name) not in ALLOWED_MEMOIZED:
+                        findings["module_state"].append("%s:%d %s is memoized (@%s): results of one run survive into the next" % (rel, fn_node.lineno, fn_node.name, dname))
+            for sub in ast.walk(fn_node):
+                tgt = []
+                if isinstance(sub, (ast.Assign, ast.AugAssign, ast.AnnAssign)):
+                    tgt = sub.targets if isinstance(sub, ast.Assign) else [sub.target]
+                elif isinstance(sub, ast.Delete):
+                    tgt = sub.targets
+                for t in tgt:
+                    if isinstance(t, ast.Subscript) and isinstance(t.value, ast.Name) and t.value.id in module_containers:
+                        findings["module_state"].append("%s:%d %s[...] is assigned or deleted inside a function" % (rel, sub.lineno, t.value.id))
+                if isinstance(sub, ast.Call) and isinstance(sub.func, ast.Attribute) and isinstance(sub.func.value, ast.Name) and sub.func.value.id in module_containers \
+                        and sub.func.attr in MUTATING_METHODS:
+                    findings["module_state"].append("%s:%d %s.%s(...) inside a function" % (rel, sub.lineno, sub.func.value.id, sub.func.attr))
         for node in ast.walk(tree):
             # np.random.<something> / numpy.random.<something>
             if isinstance(node, ast.Attribute) and isinstance(node.value, ast.Attribute) and node.value.attr == "random" and isinstance(node.value.value, ast.Name) and node.value.value.id in ("np", "numpy"):
@@ -300,6 +335,7 @@ def scn_scan(T, case):
     T.prove("C16.scan.no_generator_without_explicit_seed", findings["unseeded_generator"] == [], "; ".join(findings["unseeded_generator"]))
     T.prove("C16.scan.no_time_or_entropy_derived_values", findings["time_or_entropy"] == [], "; ".join(findings["time_or_entropy"]))
     T.prove("C16.scan.no_global_statements", findings["global_statement"] == [], "; ".join(findings["global_statement"]))
+    T.prove("C16.scan.no_module_level_container_is_mutated_by_a_function_and_nothing_is_memoized", findings["module_state"] == [], "; ".join(findings["module_state"]))
     T.prove("C16.scan.plugin_objects_are_stateless", findings["plugin_state"] == [], "; ".join(findings["plugin_state"]))
 
 
@@ -308,21 +344,40 @@ def cases_native(tier):
     for sampler in ("norm", "uniform", "sobol", "lhs", "halton", "truncnorm"):
         for shared in (False, True):
             yield "%s/%s" % (sampler, "shared" if shared else "own"), {"sampler": sampler, "shared": shared, "__concrete_only__": True}
+    # large requests (80 variables, 12 realizations, 10 perturbations: 9600 samples per gradient; 80 sampled dimensions)
+    for sampler in ("norm", "uniform", "halton", "sobol") + (("lhs", "truncnorm") if tier == "thorough" else ()):
+        yield "%s/own/large-80-variables-12-realizations-10-perturbations" % sampler, {"sampler": sampler, "shared": False, "large": True, "__concrete_only__": True}
+    # evaluations in which realizations fail, at the FIRST evaluation of the run (so that nothing of this run precedes them): every
+    # realization with realization_min_success = 0 and a non-linear constraint; every positively weighted realization while a
+    # zero-weight one survives (realization_min_success = 1); NaN-tolerant and NaN-intolerant methods
+    for method in ("slsqp", "differential_evolution"):
+        yield "failures/all-realizations/min_success=0/constraint/%s" % method, {"sampler": "norm", "shared": False, "failing": "all", "method": method, "__concrete_only__": True}
+        yield "failures/positive-weights-fail-zero-weight-survives/%s" % method, {"sampler": "norm", "shared": False, "failing": "positive", "method": method, "__concrete_only__": True}
     yield "two-samplers+filter+stddev", {"sampler": "norm", "shared": False, "rich": True, "__concrete_only__": True}
     yield "differential_evolution", {"sampler": "norm", "shared": False, "de": True, "__concrete_only__": True}
 
 
-def _trace_run(config, pm=None, hostile=None, transforms=None):
+def _trace_run(config, pm=None, hostile=None, transforms=None, failing=None):
     from ropt.evaluator import EvaluatorResult
     from ropt.plan import BasicOptimizer
 
-    trace = []
+    trace, calls = [], []
 
     def ev(x, ctx):
         if hostile is not None:
             hostile()
         o = np.stack([((x - 0.3 * (r + 1)) ** 2).sum(axis=1) for r in [0]], axis=1)
         o = np.array([[float(((x[k] - 0.2 * (int(ctx.realizations[k]) + 1)) ** 2).sum())] for k in range(x.shape[0])])
+        con = None
+        if failing is not None:
+            con = np.array([[float(x[k].sum() + 0.1 * int(ctx.realizations[k]))] for k in range(x.shape[0])])
+            if not calls:
+                bad = [k for k in range(x.shape[0]) if failing == "all" or (failing == "positive" and int(ctx.realizations[k]) in (0, 1))]
+                o[bad, :] = np.nan
+                con[bad, :] = np.nan
+            calls.append(1)
+            trace.append(("request", x.tobytes(), ctx.realizations.tobytes(), None if ctx.perturbations is None else ctx.perturbations.tobytes()))
+            return EvaluatorResult(objectives=o, constraints=con)
         trace.append(("request", x.tobytes(), ctx.realizations.tobytes(), None if ctx.perturbations is None else ctx.perturbations.tobytes()))
         return EvaluatorResult(objectives=o)
 
@@ -332,7 +387,9 @@ def _trace_run(config, pm=None, hostile=None, transforms=None):
         for r in results:
             trace.append(("result", type(r).__name__, r.evaluations.variables.tobytes(),
                           None if getattr(r, "functions", None) is None else r.functions.weighted_objective.tobytes(),
-                          None if getattr(r, "gradients", None) is None else r.gradients.weighted_objective.tobytes()))
+                          None if getattr(r, "gradients", None) is None else r.gradients.weighted_objective.tobytes(),
+                          None if getattr(r, "functions", None) is None else (r.functions.objectives.tobytes(), None if r.functions.constraints is None else r.functions.constraints.tobytes()),
+                          None if getattr(r, "constraint_info", None) is None or r.constraint_info.nonlinear_lower is None else r.constraint_info.nonlinear_lower.tobytes()))
 
     opt.set_results_callback(report)
     opt.run()
@@ -349,6 +406,19 @@ def scn_native(T, case):
         "gradient": {"number_of_perturbations": 3, "seed": seed, "perturbation_magnitudes": 0.05},
         "samplers": [{"method": case["sampler"], "shared": case["shared"]}],
     }
+    if case.get("large"):
+        cfg["variables"]["initial_values"] = [0.01 * i for i in range(80)]
+        cfg["realizations"]["weights"] = [1.0 + (r % 3) for r in range(12)]
+        cfg["gradient"]["number_of_perturbations"] = 10
+        cfg["optimizer"]["max_functions"] = 2
+    FAIL = case.get("failing")
+    if FAIL:
+        cfg["optimizer"] = {"method": case["method"], "max_functions": 6} if case["method"] == "slsqp" else {"method": "differential_evolution", "max_functions": 8, "options": {"seed": 3, "popsize": 2, "maxiter": 1}}
+        cfg["nonlinear_constraints"] = {"lower_bounds": [-10.0], "upper_bounds": [10.0]}
+        if FAIL == "all":
+            cfg["realizations"] = {"weights": [1.0, 2.0, 1.0], "realization_min_success": 0}
+        else:
+            cfg["realizations"] = {"weights": [1.0, 2.0, 0.0], "realization_min_success": 1}
     if case.get("rich"):
         cfg["samplers"] = [{"method": "norm"}, {"method": "sobol"}]
         cfg["gradient"]["samplers"] = [1, 0, 1]
@@ -358,26 +428,26 @@ def scn_native(T, case):
     if case.get("de"):
         cfg["optimizer"] = {"method": "differential_evolution", "max_functions": 12, "options": {"seed": 3, "popsize": 2, "maxiter": 2}}
     rs = np.random.RandomState(seed)
-    base = _trace_run(cfg)
+    base = _trace_run(cfg, failing=FAIL)
     np.random.seed(int(rs.randint(0, 2**31 - 1)))
-    again = _trace_run(cfg)
+    again = _trace_run(cfg, failing=FAIL)
     T.prove("C16.native.same_trace_after_reseeding_the_global_generator", again == base)
 
     def hostile():
         np.random.seed(int(rs.randint(0, 2**31 - 1)))
         np.random.random(3)
 
-    T.prove("C16.native.same_trace_when_the_global_generator_is_reseeded_during_the_run", _trace_run(cfg, hostile=hostile) == base)
+    T.prove("C16.native.same_trace_when_the_global_generator_is_reseeded_during_the_run", _trace_run(cfg, hostile=hostile, failing=FAIL) == base)
     other = dict(cfg, gradient=dict(cfg["gradient"], seed=seed + 1), optimizer={"method": "slsqp", "max_functions": 2})
-    _trace_run(other)
-    T.prove("C16.native.same_trace_after_an_unrelated_run_in_the_same_process", _trace_run(cfg) == base)
+    _trace_run(other, failing="none" if FAIL else None)
+    T.prove("C16.native.same_trace_after_an_unrelated_run_in_the_same_process", _trace_run(cfg, failing=FAIL) == base)
     from ropt.config.enopt import EnOptConfig
 
     validated = EnOptConfig.model_validate(cfg)
-    first = _trace_run(validated)
-    T.prove("C16.native.same_trace_when_one_validated_configuration_object_is_run_twice", first == base and _trace_run(validated) == base)
-    if not case.get("de"):
-        changed = _trace_run(dict(cfg, gradient=dict(cfg["gradient"], seed=seed + 1)))
+    first = _trace_run(validated, failing=FAIL)
+    T.prove("C16.native.same_trace_when_one_validated_configuration_object_is_run_twice", first == base and _trace_run(validated, failing=FAIL) == base)
+    if not case.get("de") and not FAIL:
+        changed = _trace_run(dict(cfg, gradient=dict(cfg["gradient"], seed=seed + 1)), failing=FAIL)
         reqs = lambda t: [e[1] for e in t if e[0] == "request" and e[3] is not None]  # noqa: E731
         T.prove("C16.native.changing_the_seed_changes_the_perturbations", reqs(changed) != reqs(base))
 
@@ -410,6 +480,6 @@ MANIFEST = {
     "text": "Effect/frame analysis, not a proof of bit-identity: contracts on the real code show that the only source of randomness is one generator built from config.gradient.seed, "
             "handed unchanged to every sampler and on to SciPy, and that sampler order depends on the configuration only; a syntactic scan of every module excludes global random state, "
             "unseeded generators, time/entropy, `global` and stateful plug-in objects; whole-run traces are compared bit-for-bit natively under reseeding/interleaving (bounded).",
-    "note": "determinism of NumPy Generator / SciPy assumed; bit-identity and seed-sensitivity only bounded native evidence; syntactic scan limited to the listed constructs",
+    "note": "determinism of NumPy Generator / SciPy assumed; bit-identity and seed-sensitivity only bounded native evidence; syntactic scan limited to the listed constructs (global random state, unseeded generators, time/entropy, global statements, plug-in state, module-level containers mutated by functions, memoisation)",
     "technique": "contract-based frame verification (reads/modifies clauses checked by symbolic execution of the real source with recording stubs) + syntactic frame scan of the package + bounded native trace comparison",
 }
